@@ -12,6 +12,15 @@
 //	limitrace <k> -> <max> <stored afterwards> <creates accepted> <creates refused>
 //	mergerace <k> <n> -> <id:upd,state of the raced id as stored afterwards> <stored0 upd> <batch upd> <expire upd>
 //
+//	snaprace <k> <n> -> <seam|timed> <pre> <post> <loaded>     each: <raced silence>,<its replacement>,<active>,<stored>
+//
+// snaprace: the store holds n active silences; Snapshot races an incompatible edit of one of them (Set with the id and
+// other matchers = expire the old silence + create its replacement, one critical section of the store).  The snapshot
+// is loaded into a fresh Silences: what a restart finds is the store as it was before the edit (pre) or after it (post),
+// never a mixture (AM.CrashFS.snapshot_loads_one_state).  The edit is started either when the snapshot's writer receives
+// its first bytes (the writer then gives the edit some time: a slow disk) or after a delay swept over the measured
+// duration of a snapshot.
+//
 // mergerace: the store holds n active silences; a Merge of a full-state batch with a NEWER version of every one
 // of them (milliseconds of work) races an API Expire of one of them.  Whatever the interleaving, the id ends up
 // with the newest of the three versions (the expiry): merging never replaces a newer version by an older one.
@@ -21,7 +30,9 @@ import (
 	"bytes"
 	"context"
 	"fmt"
+	"io"
 	"log/slog"
+	"os"
 	"math/rand/v2"
 	"sort"
 	"strconv"
@@ -181,6 +192,113 @@ func (w *world) mergeRaceOnce(k, n int, delay time.Duration, took *time.Duration
 	return fmt.Sprintf("%d,%s %d %d %d", v.UpdatedAt.AsTime().UnixNano()-stored0, state, 0, batchUpd-stored0, expUpd-stored0)
 }
 
+// slowWriter is the snapshot's destination in seam mode: when the first bytes arrive it lets the edit start and
+// waits (bounded) for it to finish, like a disk that stalls.  A snapshot that holds the store lock while it writes
+// makes the edit wait instead; the writer then simply goes on after the bound.
+type slowWriter struct {
+	buf   bytes.Buffer
+	first chan struct{}
+	done  chan struct{}
+	once  sync.Once
+}
+
+func (sw *slowWriter) Write(p []byte) (int, error) {
+	sw.once.Do(func() {
+		close(sw.first)
+		select {
+		case <-sw.done:
+		case <-time.After(30 * time.Millisecond):
+		}
+	})
+	return sw.buf.Write(p)
+}
+
+func silState(s *pb.Silence, ts time.Time) string {
+	switch {
+	case ts.Before(s.StartsAt.AsTime()):
+		return "pending"
+	case ts.After(s.EndsAt.AsTime()):
+		return "expired"
+	}
+	return "active"
+}
+
+// snapDigest: <state of old>,<state of new>,<active>,<stored> of a store at ts
+func snapDigest(st *silence.Silences, oldID, newID string, ts time.Time) string {
+	all, _, err := st.Query(context.Background())
+	if err != nil {
+		panic(err)
+	}
+	o, n, act := "missing", "missing", 0
+	for _, s := range all {
+		x := silState(s, ts)
+		if x == "active" {
+			act++
+		}
+		if s.Id == oldID {
+			o = x
+		}
+		if newID != "" && s.Id == newID {
+			n = x
+		}
+	}
+	return fmt.Sprintf("%s,%s,%d,%d", o, n, act, len(all))
+}
+
+// snapRaceOnce: one Snapshot racing one incompatible edit of `victim`.
+func (w *world) snapRaceOnce(st *silence.Silences, victim string, tag int, seam bool, delay time.Duration) (pre, post, loaded string) {
+	ctx := context.Background()
+	pre = snapDigest(st, victim, "", time.Now())
+	now := time.Now()
+	repl := w.mkSil(now, now.Add(time.Hour), fmt.Sprintf("edited%d", tag))
+	repl.Id = victim
+	sw := &slowWriter{first: make(chan struct{}), done: make(chan struct{})}
+	var plain bytes.Buffer
+	started := make(chan struct{})
+	var wg sync.WaitGroup
+	wg.Add(2)
+	go func() {
+		defer wg.Done()
+		close(started)
+		var dst io.Writer = &plain
+		if seam {
+			dst = sw
+		}
+		if _, err := st.Snapshot(dst); err != nil {
+			panic(err)
+		}
+	}()
+	go func() {
+		defer wg.Done()
+		defer close(sw.done)
+		<-started
+		if seam {
+			select {
+			case <-sw.first:
+			case <-time.After(2 * time.Second): // an empty snapshot writes nothing
+			}
+		} else if delay > 0 {
+			time.Sleep(delay)
+		}
+		if err := st.Set(ctx, repl); err != nil {
+			panic(err)
+		}
+	}()
+	wg.Wait()
+	time.Sleep(time.Millisecond)
+	ts := time.Now()
+	post = snapDigest(st, victim, repl.Id, ts)
+	b := plain.Bytes()
+	if seam {
+		b = sw.buf.Bytes()
+	}
+	st2, err := silence.New(silence.Options{Retention: time.Hour, Metrics: prometheus.NewRegistry(), SnapshotReader: bytes.NewReader(b)})
+	if err != nil {
+		return pre, post, "unloadable,-,0,0"
+	}
+	return pre, post, snapDigest(st2, victim, repl.Id, ts)
+}
+
 func (w *world) exec(line string) string {
 	t := strings.Fields(line)
 	switch t[0] {
@@ -231,6 +349,41 @@ func (w *world) exec(line string) string {
 			out = w.mergeRaceOnce(k+j, n, took*time.Duration(j)/16, &t2)
 		}
 		return out
+	case "snaprace":
+		k, _ := strconv.Atoi(t[1])
+		n, _ := strconv.Atoi(t[2])
+		ctx := context.Background()
+		st, err := silence.New(silence.Options{Retention: time.Hour, Metrics: prometheus.NewRegistry()})
+		if err != nil {
+			panic(err)
+		}
+		now := time.Now()
+		ids := make([]string, n)
+		for i := 0; i < n; i++ {
+			p := w.mkSil(now, now.Add(time.Hour), fmt.Sprintf("m%d", i))
+			if err := st.Set(ctx, p); err != nil {
+				panic(err)
+			}
+			ids[i] = p.Id
+		}
+		t0 := time.Now()
+		if _, err := st.Snapshot(io.Discard); err != nil {
+			panic(err)
+		}
+		took := time.Since(t0)
+		// attempt 0: the edit starts when the writer has the first bytes; then its start is swept over the first
+		// half of the measured duration of a snapshot (the earlier it lands, the more entries are read after it)
+		mode, pre, post, loaded := "seam", "", "", ""
+		for j := 0; j <= 3; j++ {
+			if j > 0 {
+				mode = "timed"
+			}
+			pre, post, loaded = w.snapRaceOnce(st, ids[(k*7+j)%n], j, j == 0, took*time.Duration(j)/8)
+			if loaded != pre && loaded != post {
+				break
+			}
+		}
+		return fmt.Sprintf("%s %s %s %s", mode, pre, post, loaded)
 	case "limitrace":
 		// MaxSilences = m, m-1 stored, three concurrent creates: exactly one fits.  The limit callback sleeps, so a check
 		// that is not atomic with the insert would let all three pass it.
@@ -283,6 +436,9 @@ func (w *world) exec(line string) string {
 	panic("bad op " + line)
 }
 
+// onlyOps restricts generated cases to one kind of op (see lib/props/C11.py).
+var onlyOps = os.Getenv("VERIF_MUTESRACE_OPS")
+
 func runCase(tr *hx.Trace, id int, r *rand.Rand, script []string) {
 	var header string
 	npend := 0
@@ -293,6 +449,9 @@ func runCase(tr *hx.Trace, id int, r *rand.Rand, script []string) {
 				npend, _ = strconv.Atoi(v)
 			}
 		}
+	} else if onlyOps != "" {
+		// a property that borrows single ops of this engine (VERIF_MUTESRACE_OPS=snaprace for C11)
+		header = fmt.Sprintf("case %d npend=0 ops=%s", id, onlyOps)
 	} else {
 		npend = []int{200, 1000, 3000}[r.IntN(3)]
 		header = fmt.Sprintf("case %d npend=%d", id, npend)
@@ -318,6 +477,12 @@ func runCase(tr *hx.Trace, id int, r *rand.Rand, script []string) {
 		}
 		return
 	}
+	if onlyOps == "snaprace" {
+		for k := 0; k < 3; k++ {
+			do(fmt.Sprintf("snaprace %d %d", k+id, []int{300, 1500}[r.IntN(2)]))
+		}
+		return
+	}
 	rounds := 4 + r.IntN(8)
 	for k := 0; k < rounds; k++ {
 		do(fmt.Sprintf("race %d", k))
@@ -326,6 +491,9 @@ func runCase(tr *hx.Trace, id int, r *rand.Rand, script []string) {
 	do(fmt.Sprintf("limitrace %d", id))
 	for k := 0; k < 3; k++ {
 		do(fmt.Sprintf("mergerace %d %d", k+id, []int{300, 1500}[r.IntN(2)]))
+	}
+	if id%2 == 0 {
+		do(fmt.Sprintf("snaprace %d %d", id, []int{300, 1500}[r.IntN(2)]))
 	}
 }
 
